@@ -11,6 +11,7 @@ from .. import alphabet as A
 from .. import catref
 from .. import explore as X
 from ..core import Acc, Viol, digest, h64
+from ..model import Model
 
 TC = kp.TokenCategory
 SINGLES = [(n,) for n in catref.NAMES]
@@ -25,7 +26,7 @@ def listing(tokens):
     return [(t.encoding, t.category.name) for t in tokens]
 
 
-def check_doc(acc, headers, hist, pre=(), all_filters=False, mono=True):
+def check_doc(acc, headers, hist, pre=(), all_filters=False, mono=True, only_filters=None):
     m = X.build(headers, hist, pre, close=True)
     text = m.text()
     case = {'text': text, 'headers': headers, 'pre': list(pre), 'hist': hist}
@@ -54,6 +55,8 @@ def check_doc(acc, headers, hist, pre=(), all_filters=False, mono=True):
     _two_documents(acc, doc, exp, case)
     hd = h64(text)
     filters = [None] + SINGLES + (ROT if all_filters else [f for i, f in enumerate(ROT) if (i + hd) % 8 == 0])
+    if only_filters is not None and not all_filters:
+        filters = only_filters
     for f in filters:
         clo = catref.ALL if f is None else catref.closure(f)
         arg = None if f is None else [TC[x] for x in f]
@@ -91,7 +94,12 @@ def check_doc(acc, headers, hist, pre=(), all_filters=False, mono=True):
     try:
         if doc.get_metacomments() != gl:
             acc.violation(Viol('comment-query', 'not-the-comment-lines-in-order', case, gl, doc.get_metacomments()))
-        for key in ('COM', 'OTL', 'end', 'zzz'):
+        keys = {'COM', 'OTL', 'end', 'zzz'}
+        for x in gl:                       # every prefix of every reference key present (a key that is a prefix of another one, one letter, the empty key)
+            if x.startswith('!!!'):
+                k = x[3:].split(':')[0]
+                keys.update(k[:i] for i in range(0, len(k) + 1) if i <= 3 or i == len(k))
+        for key in sorted(keys):
             e = [x for x in gl if x.startswith(f'!!!{key}')]
             if doc.get_metacomments(key) != e:
                 acc.violation(Viol('comment-query', 'key-filter-differs', dict(case, key=key), e, doc.get_metacomments(key)))
@@ -155,6 +163,32 @@ def _job(job):
     return acc
 
 
+# comment layouts: every sequence of <= 3 of these lines before the header, inside the score and after the terminators
+CLINES = ['!!!OTL: a', '!!!OTL@@DE: b', '!!!OTL: c', '!!!OTLX: d', '!!!O: e', '!!', '!!!', '!!!: nokey', '!!!COM:nospace', '!! spaced', '!!plain', '!!!COM: Bach',
+          '!!!COM: Bach', '!!!key with space: v', '!!!!four']
+
+
+def _comment_job(job):
+    lo, hi, depth = job
+    acc = Acc()
+    _PREV.clear()
+    seqs = [()] + [s for n in range(1, depth + 1) for s in itertools.product(range(len(CLINES)), repeat=n)]
+    for si in range(lo, min(hi, len(seqs))):
+        cl = [CLINES[i] for i in seqs[si]]
+        for place in range(3):
+            for headers in (['**kern'], ['**kern', '**text']):
+                m0 = Model(headers)
+                d1 = X.content_row(m0, 'd', 1, si)
+                pre = tuple(cl) if place == 0 else ('!!!COM: pre',)
+                hist = [d1] + ([('g', c) for c in cl] if place == 1 else []) + [X.content_row(m0, 'd', 2, si)]
+                if place == 2:
+                    # after the terminators: close the spines by hand, then the comments
+                    hist = hist + [[A.TERM for _ in headers]] + [('g', c) for c in cl]
+                check_doc(acc, headers, hist, pre, mono=False, only_filters=[None, ('COMMENTS',), ('LINE_COMMENTS',), ('FIELD_COMMENTS',), ('CORE', 'LINE_COMMENTS'), ('STRUCTURAL',)])
+                acc.nontriv(('comments', si, place, len(headers)))
+    return acc
+
+
 MONO = [("**kern\n4c\n*-\n", True), ("**kern\n4c 4e\n*-\n", False), ("**kern\n*clefG2\n*-\n", False), ("**kern\t**text\n4r\tla\n*-\t*-\n", True),
         ("**kern\t**kern\n4c\t4d\n*-\t*-\n", False), ("**text\nla\n*-\n", False), ("**kern\n*^\n4c\t4d\n*v\t*v\n*-\n", True), ("**kern\n.\n*-\n", False),
         ("**kern\n4r\n*-\n", True), ("**text\t**kern\n4c\t.\n*-\t*-\n", False)]
@@ -189,6 +223,10 @@ def run(ctx):
         ctx.merge(a)
         jobs += [(h, pr, rem, seed, 5, p) for pr, rem in js]
     ctx.pmap(_job, jobs, chunksize=1)
+    cd = 2 if quick else 3
+    nseq = sum(len(CLINES) ** n for n in range(cd + 1))
+    ctx.bounds['comment_layouts'] = {'lines': len(CLINES), 'sequence_length': cd, 'placements': ['before the header', 'inside the score', 'after the terminators']}
+    ctx.pmap(_comment_job, [(lo, lo + 40, cd) for lo in range(0, nseq, 40)], chunksize=1)
 
 
 def replay(case):
